@@ -24,15 +24,30 @@ View == <<s, ref, ntx, nops, bad>>
 EmptyFn == <<>>
 Fresh(pages, root, next) ==
     [pages |-> pages, nodes |-> <<>>, pnode |-> EmptyFn, pparent |-> EmptyFn, root |-> root,
-     freed |-> {}, refreed |-> {}, next |-> next, dirty |-> FALSE, panic |-> ""]
+     freed |-> {}, refreed |-> {}, next |-> next, dirty |-> FALSE, panic |-> "", open |-> EmptyFn]
 
 S0 == Fresh((2 :> [leaf |-> TRUE, keys |-> <<>>, kids |-> <<>>]), 2, 3)
 Ref0 == [k \in Keys |-> 0]
 
 NextVer(v) == IF v = 1 THEN 2 ELSE 1
+NextBVer(v) == IF v = 10 THEN 11 ELSE 10
+IsB(v) == v >= 10
+\* which operations make sense on key k (the others are rejected by the code with an error and change nothing)
+OpOK(rf, kind, k) ==
+    CASE kind = "put" -> ~IsB(rf[k])
+      [] kind = "del" -> rf[k] \in {1, 2}
+      [] kind = "mkb" -> rf[k] = 0
+      [] kind = "touch" -> IsB(rf[k])
+      [] kind = "delb" -> IsB(rf[k])
 ApplyOp(st, rf, op) ==
-    IF op[1] = "put" THEN <<Put(st, op[2], NextVer(rf[op[2]])), [rf EXCEPT ![op[2]] = NextVer(@)]>>
-    ELSE <<Del(st, op[2]), [rf EXCEPT ![op[2]] = 0]>>
+    CASE op[1] = "put" -> <<Put(st, op[2], NextVer(rf[op[2]])), [rf EXCEPT ![op[2]] = NextVer(@)]>>
+      [] op[1] = "del" -> <<Del(st, op[2]), [rf EXCEPT ![op[2]] = 0]>>
+      [] op[1] = "mkb" -> <<MkB(st, op[2]), [rf EXCEPT ![op[2]] = 10]>>
+      [] op[1] = "touch" -> <<Touch(st, op[2], NextBVer(rf[op[2]])), [rf EXCEPT ![op[2]] = NextBVer(@)]>>
+      [] op[1] = "delb" -> <<DelB(st, op[2]), [rf EXCEPT ![op[2]] = 0]>>
+\* the orders in which spill may write the opened nested buckets back (HashMap iteration order)
+Orders(S) == {f \in [1..Cardinality(S) -> S] : \A i, j \in 1..Cardinality(S) : i # j => f[i] # f[j]}
+SomeOrder(S) == CHOOSE f \in Orders(S) : TRUE
 
 RefListing(rf) ==
     LET ks == {k \in Keys : rf[k] # 0}
@@ -72,7 +87,7 @@ RECURSIVE RunSeed(_, _, _)
 RunSeed(st, rf, i) ==
     IF i > Len(Seed) THEN <<st, rf, "">>
     ELSE LET r == RunTx(st, rf, Seed[i], 1)
-             c == CommitTree(r[1])
+             c == CommitTree(r[1], SomeOrder(DOMAIN r[1].open))
              j == Judge(r[1], c, r[2])
          IN  IF j # "" THEN <<c, r[2], j>> ELSE RunSeed(Canon(c), r[2], i + 1)
 
@@ -90,7 +105,7 @@ Alive == bad = "" /\ s.panic = "" /\ ntx >= 0
 
 DoOp(kind, k) ==
     /\ Alive /\ nops < MaxOps /\ ntx < MaxTx
-    /\ kind = "del" => ref[k] # 0
+    /\ OpOK(ref, kind, k)
     /\ LET r == ApplyOp(s, ref, <<kind, k>>)
        IN  /\ s' = r[1] /\ ref' = r[2]
            /\ (Emit /\ r[1].panic # "") =>
@@ -105,7 +120,8 @@ Out(c, j) == [hist |-> Append(hist, <<"commit", 0>>), seed |-> Seed, list |-> Re
 
 DoCommit ==
     /\ Alive /\ nops > 0 /\ ntx < MaxTx
-    /\ LET c == CommitTree(s)
+    /\ \E ord \in Orders(DOMAIN s.open) :
+       LET c == CommitTree(s, ord)
            j == Judge(s, c, ref)
        IN  /\ bad' = j
            /\ s' = IF j = "" THEN Canon(c) ELSE c
@@ -121,7 +137,9 @@ Spec == Init /\ [][Next]_vars
 NoPanic == s.panic = ""
 CommitOK == bad = ""
 \* C07 inside the transaction
-ReadYourWrites == Alive => \A k \in Keys : Get(s, k) = ref[k]
+\* (a touched nested bucket keeps its old entry until spill: compare the kind)
+Kind(v) == IF IsB(v) THEN 10 ELSE v
+ReadYourWrites == Alive => \A k \in Keys : Kind(Get(s, k)) = Kind(ref[k])
 ScanYourWrites == Alive => Scan(s) = [i \in 1..Len(RefListing(ref)) |-> RefListing(ref)[i][1]]
 \* C08 inside the transaction: seek reports existence and stands on the key or, for an absent key, on an immediate
 \* neighbour; iterating from there yields every later entry in order
